@@ -29,6 +29,15 @@ def series(draw, min_len=1, max_len=8, regime='L', ndim=1):
 
 
 @st.composite
+def count(draw, lo, hi, big, one_in=6):
+    """Number of series / candidates / matches: usually lo..hi, one case in `one_in` up to `big` (bit masks crossing a
+    byte, block plans and heaps of more than a handful of rows: mechanisms that depend on how many, not how long)."""
+    if big > hi and draw(st.integers(0, one_in - 1)) == 0:
+        return draw(st.integers(hi + 1, big))
+    return draw(st.integers(lo, hi))
+
+
+@st.composite
 def series_pair(draw, max_len=8, ndim=1, min_len=1, regimes=('L', 'L', 'F', 'S')):
     """Two series + the regime label. Regime S derives the second series from the first."""
     regime = draw(st.sampled_from(regimes))
